@@ -10,12 +10,20 @@ pub struct C08P;
 pub static C08: C08P = C08P;
 
 /// Subject kinds: how the receiver whose rows are iterated is obtained.
-pub const KINDS: [&str; 7] = ["O", "V1", "V3", "M1", "M2", "N", "D"];
+pub const KINDS: [&str; 9] = ["O", "V1", "V3", "M1", "M2", "N", "D", "DL", "DV"];
 
 /// (parent cols, parent rows, abs start of the receiver) for a receiver of size (c, r).
 pub fn layout(kind: &str, c: usize, r: usize) -> (usize, usize, (usize, usize)) {
     match kind {
         "O" | "D" => (c, r, (0, 0)),
+        // direct view over a slice with one surplus row (1 x 1 root for the empty view)
+        "DL" | "DV" => {
+            if c == 0 {
+                (1, 1, (0, 0))
+            } else {
+                (c, r + 1, (0, 0))
+            }
+        }
         "V1" => (c + 1, r.max(1), (1, 0)),
         "V3" => (c + 3, r + 2, (1, 1)),
         "M1" => (c + 1, r.max(1), (0, 0)),
@@ -47,6 +55,21 @@ macro_rules! with_subject {
                 $ro
             }
             ("D", true) => {
+                let mut v__ = toodee::TooDeeViewMut::new(c__, r__, $root.data_mut());
+                let $xm = &mut v__;
+                $rw
+            }
+            ("DL", false) => {
+                let v__ = toodee::TooDeeViewMut::new(c__, r__, $root.data_mut());
+                let $x = &v__;
+                $ro
+            }
+            ("DV", _) => {
+                let v__ = toodee::TooDeeView::new(c__, r__, $root.data());
+                let $x = &v__;
+                $ro
+            }
+            ("DL", true) => {
                 let mut v__ = toodee::TooDeeViewMut::new(c__, r__, $root.data_mut());
                 let $xm = &mut v__;
                 $rw
@@ -99,7 +122,7 @@ macro_rules! with_subject {
 }
 
 pub fn has_mut(kind: &str) -> bool {
-    !kind.starts_with('V')
+    !(kind.starts_with('V') || kind == "DV")
 }
 
 pub fn new_root(pc: usize, pr: usize) -> TooDee<u32> {
@@ -176,7 +199,7 @@ impl Prop for C08P {
         run_subject(kind, c, r, mutable, ctx);
     }
     fn rule(&self) -> String {
-        "subjects: rows() and rows_mut() of owned arrays, TooDeeView / TooDeeViewMut windows with stride > width (skip 1, 2, 3), nested windows, directly constructed views, for every shape in the bound (incl. empty, width 1, height 1). \
+        "subjects: rows() and rows_mut() of owned arrays, TooDeeView / TooDeeViewMut windows with stride > width (skip 1, 2, 3), nested windows, directly constructed views (over an exact slice and over a slice with surplus cells), for every shape in the bound (incl. empty, width 1, height 1). \
          For every subject EVERY call sequence up to the depth bound over {next, next_back, nth(n), nth_back(n)} with n in 0..=rows+1 plus overflow-provoking values (indices whose product with the stride wraps into the slice, usize::MAX/stride, usize::MAX), cut two calls after the ideal sequence is exhausted, \
          is executed on a fresh real iterator; len(), size_hint() and num_cols() are checked after every call; every proper prefix is additionally closed with each of count, last, fold, rfold, for_each, rev-then-forward. \
          Every result must equal the ideal VecDeque of row slices compared by ADDRESS and length; for rows_mut every yielded slice is written through and the array must show exactly those writes (disjointness, write-through). \
